@@ -239,7 +239,7 @@ func genPlanPart(r *hlib.Run, sb *hlib.StdBuild) {
 				p.files = append(p.files, f)
 				for k := rd.Intn(3); k > 0 && rd.Chance(1, 2); k-- {
 					u := allDirnames[rd.Intn(len(allDirnames))]
-					switch rd.Intn(12) {
+					switch rd.Intn(40) {
 					case 0:
 						u = "std/nosuchpkg"
 					case 1:
@@ -448,7 +448,7 @@ const (
 
 func releasePart(r *hlib.Run, sb *hlib.StdBuild) {
 	rd := r.Rand.Fork()
-	n := 40
+	n := 30
 	if r.Thorough {
 		n = 600
 	}
@@ -472,7 +472,7 @@ func releasePart(r *hlib.Run, sb *hlib.StdBuild) {
 		if len(names) == 0 {
 			names = []string{"wuffs-std-zz.c"}
 		}
-		acyclic := rd.Chance(3, 4)
+		acyclic := rd.Chance(6, 7)
 		incs := map[string][]string{}
 		for i, nm := range names {
 			if nm == "wuffs-base.c" {
@@ -481,10 +481,10 @@ func releasePart(r *hlib.Run, sb *hlib.StdBuild) {
 			k := rd.Range(0, 3)
 			for j := 0; j < k; j++ {
 				var t string
-				switch x := rd.Intn(10); {
-				case x < 3:
-					t = "wuffs-base.c"
+				switch x := rd.Intn(30); {
 				case x < 9:
+					t = "wuffs-base.c"
+				case x < 29:
 					if acyclic {
 						if i == 0 {
 							continue
@@ -546,14 +546,14 @@ func releasePart(r *hlib.Run, sb *hlib.StdBuild) {
 		out, bytes1 := run()
 		r.Op("release "+strings.Join(toks, " "), out)
 		r.Count("release:" + strings.Fields(out)[0])
-		if strings.HasPrefix(out, "ok") {
+		if strings.HasPrefix(out, "ok") && (ci%3 == 0 || r.Thorough) {
 			out2, bytes2 := run()
 			if out2 != out || !bytes.Equal(bytes1, bytes2) {
 				r.Fail("release:not-repeatable", "`wuffs-c genrelease` with the same argument list gives two different release files", fmt.Sprintf("cd %s && wuffs-c genrelease %s\nincludes: %v\nfirst difference at %s", dir, strings.Join(args, " "), incs, firstDiffLine(bytes1, bytes2)))
 			}
-			if len(strings.Split(out, ",")) >= 3 {
-				r.Nontrivial("release:" + strings.Join(toks, " "))
-			}
+		}
+		if strings.HasPrefix(out, "ok") && len(strings.Split(out, ",")) >= 3 {
+			r.Nontrivial("release:" + strings.Join(toks, " "))
 		}
 		os.RemoveAll(dir)
 	}
